@@ -396,6 +396,10 @@ def verify(m, snap, whole=False, notes=None):
             cents.append(np.mean(snap["coords"][nbrs[i]], axis=0) - X)
         if pn and len(pn) != len(nbrs[i]):
             cents.append(np.mean(snap["coords"][pn], axis=0) - X)
+        if cents and not pn:
+            # all neighbours are CoordinationCenter atoms, which the routine documents it ignores: under
+            # that reading there is no centroid to point away from
+            cents = []
         if cents:
             determinate = True
             if whole:
@@ -424,6 +428,31 @@ def verify(m, snap, whole=False, notes=None):
     return out, tuple(obs)
 
 
+def make_repro(snap, case):
+    """self-contained snippet (imports only molli/numpy) that rebuilds the molecule of a case."""
+    if case.get("kind") == "file":
+        return "import molli as ml\nm = ml.Molecule.load_mol2(ml.files.hadd_test_mol2)\nn = m.n_atoms\nm.add_implicit_hydrogens()\nprint(m.n_atoms - n, m.coords[n:], m.atomic_charges.dtype)\n"
+    if case.get("kind") == "cdxml":
+        get = f"f[{case['key']!r}]" if case["by"] == "label" else f"f._parse_fragment(f.xfrags[{case['key']}])"
+        return (
+            "import molli as ml\nfrom molli.ftypes.cdxml import CDXMLFile\n"
+            f"f = CDXMLFile(ml.files.ROOT / {case['file']!r})\nm = {get}\nn = m.n_atoms\nm.add_implicit_hydrogens()\nprint(m.n_atoms - n, m.coords[n:], m.atomic_charges.dtype)\n"
+        )
+    lines = ["import numpy as np", "from molli.chem import Atom, Bond, Molecule, AtomType, BondType", "atoms = ["]
+    for d, h in zip(snap["desc"], snap["hints"]):
+        att = f", attrib={{{HINT!r}: {h}}}" if h is not None else ""
+        lines.append(f"    Atom({d[0]}, atype=AtomType({d[3]}), formal_charge={d[6]}, formal_spin={d[7]}{att}),")
+    lines.append("]")
+    lines.append("m = Molecule(atoms, copy_atoms=False)")
+    lines.append(f"m.coords = np.array({np.round(snap['coords'], 6).tolist()})")
+    for i, j, bt, _, fo in snap["bdesc"]:
+        lines.append(f"m.append_bond(Bond(atoms[{i}], atoms[{j}], btype=BondType({bt}), f_order={fo}))")
+    lines.append("n = m.n_atoms")
+    lines.append("m.add_implicit_hydrogens()")
+    lines.append("print('added', m.n_atoms - n, 'atoms'); print(m.coords[n:]); print([(m.get_atom_index(b.a1), m.get_atom_index(b.a2)) for b in m.bonds]); print(m.atomic_charges.dtype)")
+    return "\n".join(lines) + "\n"
+
+
 def run_one(ctx, m, case, whole=False, second=True, keyclass=None):
     """one molecule: call once (and twice); report; returns the outcome tuple"""
     snap = snapshot(m)
@@ -443,7 +472,7 @@ def run_one(ctx, m, case, whole=False, second=True, keyclass=None):
     if r is not None:
         bad.append(("returns:not-none", f"returned {type(r).__name__}"))
     for sig, what in bad:
-        ctx.violation(sig, what, case)
+        ctx.violation(sig, what, case, repro=make_repro(snap, case) if sig not in ctx.violations else None)
     # a damaged molecule is not explored further; a result that is merely misplaced/mistyped is
     damaged = [s for s, _ in bad if not (s == "unchanged:atomic-charges-dtype" or s.endswith(":wrong-distance") or s.endswith(":not-pointing-away"))]
     if damaged:
@@ -484,7 +513,7 @@ def head_menu(ctx):
                 heads.append((c, q, sp, None))
     for h in (0, 1, 2, 3):
         for c in rot(CENTRES, s):
-            qs = [(q, sp) for q in CHARGES for sp in SPINS] if ctx.thorough else [(0, 0), (-1, 1)]
+            qs = [(0, 0), (1, 0), (-1, 1), (0, 2)] if ctx.thorough else [(0, 0), (-1, 1)]  # a hint overrides charge and spin
             for q, sp in qs:
                 heads.append((c, q, sp, h))
     return heads
